@@ -226,4 +226,15 @@ example : greedy 2 (SeqState.newFixed 65535)
     [{ g := 0, op := .next, before := 1, after := 2, res := 0 },
      { g := 1, op := .next, before := 3, after := 4, res := 65535 }] = none := by decide
 
+/-- the remaining kinds have constant model observations: the lock-discipline facts the
+    interleaving theorem presupposes (`c07.facts`), "no race reported" (`c07.race`), first values of
+    random sequencers below 2^15 (`c07.randstart`, given `c07_start`) -/
+theorem c07_facts_model :
+    factsOk { nextLocksFirst := true, nextDefersUnlock := true, rocLocksFirst := true, rocDefersUnlock := true,
+              noOtherLockOps := true, fieldsPrivate := true, maxInitialRandom := SeqState.maxInitialRandom } = true := by
+  decide
+
+theorem c07_randstart_model (n lo hi : Nat) (h : hi < 2 ^ 15) : randStartOk { n := n, minFirst := lo, maxFirst := hi } = true := by
+  simp only [randStartOk, decide_eq_true_eq]; omega
+
 end Rtp.Props.C07
